@@ -985,12 +985,26 @@ def run_dec(t, pre, body, post):
         # (decode_bytes runs FIRST, on whatever state the previous cases left behind)
         decb0 = E(lambda: to_val(t, T.decode_bytes(body)))
         decb = ';p.decb=%s' % decb0
+    # the WORK of the decoder: the number of `deserialize` calls it makes (nested ones included; the 4-byte offset
+    # reads, which go through uint32.deserialize, are not counted), whether it succeeds or not
+    calls = [0]
+
+    def prof(frame, event, arg):
+        if event == 'call' and frame.f_code.co_name == 'deserialize':
+            b_ = frame.f_back
+            if b_ is None or b_.f_code.co_name != 'decode_offset':
+                calls[0] += 1
     try:
-        y = T.deserialize(s, len(body))
+        sys.setprofile(prof)
+        try:
+            y = T.deserialize(s, len(body))
+        finally:
+            sys.setprofile(None)
     except RecursionError:
-        return 'p.dec=err' + decb
+        return 'p.dec=err;p.calls=%d' % calls[0] + decb
     except Exception:
-        return 'p.dec=err' + decb
+        return 'p.dec=err;p.calls=%d' % calls[0] + decb
+    put('p.calls', str(calls[0]))
     consumed = s.tell() - len(pre)
     put('p.dec', E(lambda: to_val(t, y)))
     put('p.consumed', str(consumed))
